@@ -1190,6 +1190,65 @@ func (g *Gen) scenarios() []intent {
 			return []SymStep{st, cbOK, st, cbErr}
 		})
 	}
+	if c.has("auth") && c.has("logout") {
+		// remembered login, logout, and what the cookie is worth afterwards (under the global wrapper also: the
+		// session cookie is gone and only the remember cookie comes along with the logout request)
+		add(boost(3, "general", "remember", "twofactor", "oauth2"), func() []SymStep {
+			u := g.known()
+			b := g.browser()
+			out := []SymStep{g.loginStep(b, u, Desc{K: "pw", U: u}, c.has("remember") || g.rng.Intn(2) == 0)}
+			if usr := g.r.w.st.users[g.r.account(u).PID]; usr != nil && ((c.Totp && usr.TOTPSecretKey != "") || (c.Sms && usr.SMSPhoneNumber != "")) {
+				out = append(out, g.validateStep(b, u))
+			}
+			if c.WrapRemember && g.rng.Intn(2) == 0 {
+				out = append(out, SymStep{Kind: "dropsess", U: b})
+			}
+			out = append(out, g.req(b, c.LogoutMethod, "Logout", nil))
+			arg := pickS(g.rng, "00u0010", "00r0010", "10n0010", "00u0000")
+			if !c.has("remember") {
+				arg = "00u0000"
+			}
+			return append(out, SymStep{Kind: "req", Req: &SymReq{Browser: b, Method: "GET", Route: "App", Arg: arg}})
+		})
+	}
+	if c.has("auth") && c.has("remember") {
+		// a half-authenticated session (logged in by its cookie) knocks on every door that wants a full login
+		add(boost(2, "remember", "twofactor", "general"), func() []SymStep {
+			u := g.known()
+			b := g.browser()
+			out := []SymStep{g.loginStep(b, u, Desc{K: "pw", U: u}, true)}
+			if usr := g.r.w.st.users[g.r.account(u).PID]; usr != nil && ((c.Totp && usr.TOTPSecretKey != "") || (c.Sms && usr.SMSPhoneNumber != "")) {
+				out = append(out, g.validateStep(b, u))
+			}
+			out = append(out, SymStep{Kind: "dropsess", U: b},
+				SymStep{Kind: "req", Req: &SymReq{Browser: b, Method: "GET", Route: "App", Arg: "00u0010"}})
+			routes := []string{"OtpAdd"}
+			if c.Recovery {
+				routes = append(routes, "RecoveryRegen", "RecoveryRegen")
+			}
+			if c.Totp {
+				routes = append(routes, "TotpSetup", "TotpRemove", "TotpConfirm")
+			}
+			if c.Sms {
+				routes = append(routes, "SmsSetup", "SmsRemove")
+			}
+			for k := 0; k < 2; k++ {
+				out = append(out, g.req(b, pickS(g.rng, "POST", "POST", "GET"), routes[g.rng.Intn(len(routes))], nil))
+			}
+			return append(out, SymStep{Kind: "req", Req: &SymReq{Browser: b, Method: "GET", Route: "App", Arg: "10u0000"}})
+		})
+		// a password update (to a new or to the same password) and what the cookie is worth afterwards
+		add(boost(2, "password", "remember"), func() []SymStep {
+			u := g.known()
+			b := g.browser()
+			pw := lit("Updated-7!Yy")
+			if g.rng.Intn(2) == 0 {
+				pw = Desc{K: "pw", U: u}
+			}
+			return []SymStep{g.loginStep(b, u, Desc{K: "pw", U: u}, true), {Kind: "updpw", U: u, PW: &pw}, {Kind: "dropsess", U: b},
+				{Kind: "req", Req: &SymReq{Browser: b, Method: "GET", Route: "App", Arg: "00u0010"}}}
+		})
+	}
 	if c.has("auth") {
 		// a browser that is logged in as one account submits another account's identifier with its OWN
 		// password (and then with the right one)
